@@ -83,7 +83,12 @@ def get_page_tree_walk(prop="C17"):
         return [SUBS(0) == subs_of(e, e), FILES(0) == files_of(e, e),
                 SUBS(v.k + 1) == z3.Concat(SUBS(v.k), contrib_sub(e, v.k)), FILES(v.k + 1) == z3.Concat(FILES(v.k), contrib_file(e, v.k)),
                 z3.Length(STR_OF(v.it.seq[v.k])) > 0]
-    c.loop(0, invariants=[("subpages_are_the_fold", lambda v: subs_of(v, E(v)) == SUBS(v.k)),
+    jin = z3.Int("j!inside")
+    inside_upto = lambda v0, k: z3.ForAll([jin], z3.Implies(z3.And(0 <= jin, jin < k, z3.Not(skipped(v0, jin))),
+                                                            z3.And(EXISTS(full(v0, jin)), c._inside(z3.Concat(z3.StringVal("\x00resolved:"), v0.topdir),
+                                                                                                   z3.Concat(z3.StringVal("\x00resolved:"), full(v0, jin))))))
+    c.loop(0, invariants=[("entries_so_far_exist_inside_the_directory", lambda v: inside_upto(E(v), v.k)),
+                          ("subpages_are_the_fold", lambda v: subs_of(v, E(v)) == SUBS(v.k)),
                           ("files_are_the_fold", lambda v: files_of(v, E(v)) == FILES(v.k)),
                           ("frame", lambda v: z3.And(v.it.seq == seq0(E(v)), v.topdir == E(v).topdir, v.node == E(v).node, v.parent == E(v).parent,
                                                      sel(H(v, "subpages"), v.node) == sel(H(E(v), "subpages"), E(v).node), sel(H(v, "files"), v.node) == sel(H(E(v), "files"), E(v).node),
@@ -93,11 +98,21 @@ def get_page_tree_walk(prop="C17"):
     c.post_facts = lambda v0: [SUBS(0) == subs_of(v0, v0), FILES(0) == files_of(v0, v0)]
 
     # --- the file system and the callees
-    def str_attr(eng, path, obj, name):
+    INSIDE_DIR = z3.Function("RESOLVES_INSIDE", S, S, B)      # topdir.resolve() in filename.resolve().parents
+    c.methods["resolve"] = lambda eng, path, e, args, recv: SOpaque("resolved", None) if not isinstance(recv, SStr) else SStr(z3.Concat(z3.StringVal("\x00resolved:"), recv.t))
+    def _sattr(eng, path, obj, name):
         if name == "suffix":
             return SStr(SUFFIX(obj.t))
+        if name == "parents":
+            return SOpaque("parents:" , obj.t)
         return None
-    c.str_attr = str_attr
+    c.str_attr = _sattr
+    def _contains(eng, path, container, item, e):
+        if container.tag.startswith("parents"):
+            return INSIDE_DIR(eng.to_str(path, item), container.t)
+        return None
+    c.opaque_contains = _contains
+    c._inside = INSIDE_DIR
     c.methods["exists"] = lambda eng, path, e, args, recv: SBool(EXISTS(eng.to_str(path, recv)))
     c.methods["is_dir"] = lambda eng, path, e, args, recv: SBool(ISDIR(eng.to_str(path, recv)))
     c.assumed.append("the file system is a pure function of the path during the walk (exists / is_dir / suffix are uninterpreted functions of the path's string form)")
@@ -132,9 +147,12 @@ def get_page_tree_walk(prop="C17"):
         n = z3.Length(seq0(v0))
         return z3.And(subs_of(v1, v0) == SUBS(n), files_of(v1, v0) == FILES(n))
     c.ensures("subpages_and_files_follow_the_merged_list_entry_by_entry", post)
+    c.ensures("every_entry_that_was_walked_exists_and_resolves_inside_the_directory", lambda v0, res, v1: inside_upto(v0, z3.Length(seq0(v0))))
     jr = z3.Int("j!raise")
-    c.raises("only_for_a_listed_entry_that_does_not_exist",
-             lambda v0, exc, v1: z3.Exists([jr], z3.And(0 <= jr, jr < z3.Length(seq0(v0)), z3.Not(skipped(v0, jr)), z3.Not(EXISTS(full(v0, jr))))))
+    RES = lambda t: z3.Concat(z3.StringVal("\x00resolved:"), t)
+    c.raises("only_for_a_listed_entry_that_does_not_exist_or_lies_outside_the_directory",
+             lambda v0, exc, v1: z3.Exists([jr], z3.And(0 <= jr, jr < z3.Length(seq0(v0)), z3.Not(skipped(v0, jr)),
+                                                        z3.Or(z3.Not(EXISTS(full(v0, jr))), z3.Not(c._inside(RES(v0.topdir), RES(full(v0, jr))))))))
     c.allowed_raises = {"ValueError"}
     return c
 
@@ -292,3 +310,21 @@ def writeout_copies(prop="C17"):
     c.ensures("every_copy_subdir_entry_inside_the_page_directory_and_every_other_file_is_copied_next_to_the_page", post)
     c.no_raise = True
     return c
+
+
+def convert_path_obligation(prop="C11"):
+    """PageNode.__init__ converts a page's Markdown with `path` = the directory its HTML is written to: [[...]] references and relative links are
+    computed with relpath(target, path), which treats `path` as a directory"""
+    init = loader.find_def("ford.pagetree", "PageNode.__init__")
+    stmts = [ast.unparse(s) for s in ast.walk(init) if isinstance(s, ast.Assign)]
+    ok_dir = "output_path = output_dir / 'page' / self.path.parent" in stmts
+    calls = [n for n in ast.walk(init) if isinstance(n, ast.Call) and ast.unparse(n.func).endswith(".convert")]
+    ok_call = len(calls) == 1 and any(k.arg == "path" and ast.unparse(k.value) == "output_path.resolve()" for k in calls[0].keywords)
+    ok = ok_dir and ok_call
+    r = OR(id=f"{prop}.S.PageNode.__init__.markdown_converted_relative_to_the_page_directory", status=PROVED if ok else REFUTED, kind="S", role="pre", backend="ast",
+           target="ford.pagetree.PageNode.__init__", desc="md.convert(..., path=<output_dir>/page/<directory of the page>): the base against which [[...]] links of a static page are made relative",
+           witness=None if ok else {"output_path": [s for s in stmts if s.startswith("output_path")], "convert call": [ast.unparse(c) for c in calls]})
+    if not ok:
+        from bounded import c17
+        r.replay = c17.search(nrandom=0, names=("three levels", "basic"))
+    return [r]
